@@ -11,6 +11,8 @@ McValues    == {V("nil", TRUE, "null"), V("str_quotes", TRUE, "string"), V("map_
 McMessages  == {"text", "jsonobj-nocode", "jsonobj-strcode"}
 McServers   == {"Oryx", "VerifSrv/1.0"}
 McForms     == {"handler", "write"}
+McVias      == AllVias
+McDirect    == {"direct"}
 \* the life of one handler object (MC_HttpApi_hist*.cfg): few classes, several requests. Two different marshalable
 \* classes, two unmarshalable ones: valid v1 -> valid v2 -> unmarshalable -> valid is among the behaviours
 HistCallbacks == {[present |-> FALSE, name |-> ""], [present |-> TRUE, name |-> "cb"]}
